@@ -95,7 +95,9 @@ CHECKS = {
             "fail). A relation that holds a payload, and a tree all of whose leaves and markers hold payloads, is returned "
             "as the SAME object with no hook call and no state change (processed_relation_is_left_alone, "
             "reprocessing_calls_no_hook, fully_processed_tree_is_returned_unchanged); a statically trivial Transfer gets the "
-            "engine's trivial payload on a new node, the hook log unchanged (trivial_transfer_calls_no_hook). Proof "
+            "engine's trivial payload on a new node, the hook log unchanged (trivial_transfer_calls_no_hook), and the "
+            "materialize hook runs only for a Materialization that is neither statically trivial nor already "
+            "materialized on the way (materialize_hook_only_when_needed, either engine family). Proof "
             "(partial): operations or materializations INSIDE a SQL engine downstream of a transfer (transfers INTO a SQL "
             "engine), joins across engines, and Select markers in the input are validated "
             "by the correspondence and the oracle on every generated program, not proved; for SQL sources the theorem "
